@@ -66,6 +66,12 @@ def r2_consumers(ctx, chk, rule="C13.2"):
                               expected="whole-list commutative fold", found="break/return inside the loop", construct="%s.%s first-match" % (cls, m))
                 continue
             folds = classify(L)
+            banded = [(v, fo) for v, fo in folds.items() if fo is not None and getattr(fo, "band", False)]
+            if banded:
+                v, fo = banded[0]
+                chk.violation(rule, where, "%s.%s keeps a running optimum `%s` under the tolerance-band comparison `%s`: the relation is not transitive, so which successors are selected depends on the order in which the transitions are written" % (cls, m, v, show(fo.cond)),
+                              expected="exact comparison of (rounded) keys", found=show(fo.cond), construct="%s.%s band comparison" % (cls, m))
+                continue
             bad = [(v, fo) for v, fo in folds.items() if fo is not None and fo.kind == "OTHER" and _used(k, ("res", lid, v))]
             if bad:
                 v, fo = bad[0]
@@ -182,6 +188,41 @@ def r34_opacity(ctx, chk, rule3="C13.3", rule4="C13.4"):
     _canary(ctx, chk)
 
 
+def r5_pruning_order(ctx, chk, rule="C13.5"):
+    """Pruning decisions for one state must not depend on what earlier iterations of the same sweep did
+    (that would make the outcome depend on the numbering of the states)."""
+    from ..symx import mentions_acc
+    n = 0
+    for q in ("tad.py::Solver.prune_states", "tad.py::Solver.prune_paths", "tad.py::Solver.prune_reachability"):
+        f = ctx.func(q)
+        sx = SymX(ctx, f, "Solver", inline_depth=0).run()
+        slist = ("attr", ("v", "self"), "state_list")
+        for lid, L in sx.loops.items():
+            if L.kind != "for" or L.source != slist:
+                continue
+            for e in L.effects:
+                if e[1] not in ("store", "call"):
+                    continue
+                if e[1] == "call" and not (e[2][0] == "mcall" and ctx.cg.classes_defining_name(e[2][2])):
+                    continue
+                n += 1
+                if mentions_acc(e[0], lid):
+                    accs = sorted({t[2] for t in C02._sub(e[0]) if t[0] == "acc" and t[1] == lid})
+                    chk.violation(rule, f.where(L.node), "%s: whether `%s` happens for a state depends on `%s`, which earlier iterations of the same sweep over the state list modify: "
+                                  "the outcome depends on the numbering of the states" % (f.short, _eff_text(e), ", ".join(accs)),
+                                  expected="decisions read only data computed before the sweep (or iterate to a fixed point)", found=show(e[0]),
+                                  construct="%s order-dependent decision" % f.short)
+                else:
+                    chk.ok(rule, f.where(L.node), "%s: `%s` is decided from data fixed before the sweep (`%s`)" % (f.short, _eff_text(e), show(e[0])[:100]))
+    chk.extra["pruning_decisions"] = n
+
+
+def _eff_text(e):
+    if e[1] == "store":
+        return "%s.%s := %s" % (show(e[2]), e[3], show(e[4]))
+    return show(e[2])
+
+
 def _canary(ctx, chk):
     """The opacity scan must see a literal label comparison and an index ordering in the canary class."""
     import os
@@ -214,5 +255,6 @@ def run(ctx, chk):
     C03.r1(ctx, chk, "C13.1")
     r2_consumers(ctx, chk)
     r34_opacity(ctx, chk)
+    r5_pruning_order(ctx, chk)
     chk.require_instances("C13.1", 30)
     chk.require_instances("C13.2", 15)
